@@ -124,6 +124,9 @@ impl Bracket {
                 }
             }
             regex.write_char(')').unwrap();
+        } else if self.items.iter().all(BracketItem::matches_multi_character) {
+            // No single character is excluded, so any character matches.
+            regex.write_char('.').unwrap();
         } else {
             regex.write_str("[^").unwrap();
             for item in &self.items {
